@@ -898,6 +898,24 @@ def run(c):
             c.broken.append("translator: literal cross-check: %s" % ex)
         c.cov["exact_residuals_measured"] = exact_margins(D)
         schedule_replay(c, rebound, clib, D)
+        # MERCURIUS changeover functions: the compiled routines at the translator's exact sample points (the same points the Lean
+        # model is proved equal to the source on) must agree with the exact rational value to rounding
+        nch, worst_ch, bad_ch = 0, 0.0, None
+        for e in D["changeover"]:
+            f = getattr(clib, e["name"])
+            f.restype = ctypes.c_double
+            f.argtypes = [ctypes.c_void_p, ctypes.c_double, ctypes.c_double]
+            for d_, dc, v in e["samples"]:
+                got = f(None, float(d_), float(dc))
+                dev = abs(got - float(v))
+                worst_ch = max(worst_ch, dev)
+                nch += 1
+                if not dev <= 1e-11 and bad_ch is None:       # C5 sums terms of size 3e3 with cancellation: measured 1.1e-13
+                    bad_ch = dict(function=e["name"], d=str(d_), dcrit=str(dc), compiled=got, exact=str(v))
+        c.count("changeover-tie", n=nch)
+        c.cov["changeover_tie"] = {"lines": nch, "worst_deviation": float("%.2e" % worst_ch)}
+        if bad_ch is not None:
+            c.corr_break("compiled MERCURIUS changeover function differs from the exact value of the source text / Lean model", bad_ch)
         jn = jerk_normalisation(c, rebound, clib)
         c.cov["jerk_normalisation_measured"] = jn
         if abs(jn["eos_dv_over_v_times_finite_difference_jerk"] - 2.0) > 1e-5:
